@@ -379,4 +379,29 @@ def run(tier: str) -> int:
                     chk.violation('read-spins:' + f.name.split('#')[0], desc + '\nnative replay: ' + ' | '.join(lines), REPLAY, 'suspended_writer.rs')
                 else:
                     chk.inconclusive.append('%s: progress-free cycle through bb%d on the CFG, but the native suspended-writer replay completed all reads' % (f.name, h))
+    # ---- (iv) iteration that lives across table generations terminates: the iterator scenarios of C07 (an iterator created
+    # before / between resizes, bins forwarded and treeified under it), executed on the real MIR; C12 owns exactly the
+    # non-termination findings (an iterator that keeps yielding: more than 10 000 items from a map of < 30 entries)
+    from .. import campaign as K
+    from ._seq import confirm
+    scs = [x for x in K.scenarios_for('C07', tier, C.SEED)]
+    res = K.run_scenarios(scs)
+    byname = {x.name: x for x in scs}
+    npaths = 0
+    seen = set()
+    for r in res:
+        if r.get('error'):
+            chk.inconclusive.append('iterator scenario %s: %s' % (r['name'], r['error']))
+            continue
+        npaths += r.get('paths', 0)
+        fs = [x for x in (r.get('findings') or []) if 'does not terminate' in x.what or 'did not finish' in x.what]
+        chk.obligation('(iv) iterator scenario %s: %d paths, every next() sequence ends (the iterator returns None after finitely many items)' % (r['name'], r.get('paths', 0)), 'unsat' if not fs else 'sat', nontrivial=r.get('paths', 0) > 0)
+        for x in fs:
+            key = x.scenario.rsplit('/', 1)[0]
+            if key in seen or len(seen) >= 2:
+                continue
+            seen.add(key)
+            confirm(chk, 'C12', byname[x.scenario], x)
+    chk.bounds['(iv)'] = '%d sequential scripts with a live iterator across up to 3 table generations (identity / colliding / tree bins), %d paths' % (len(scs), npaths)
+    chk.coverage['mir_statements_executed'] = chk.coverage.get('mir_statements_executed', 0) + sum(r.get('steps', 0) for r in res)
     return chk.finish()
